@@ -118,13 +118,18 @@ def main():
             if p in sel:
                 jobs.append(("seed", os.path.basename(d), os.path.join(d, "patch.diff"), [p], True))
     if "ref" in a.what:
-        for f in sorted(glob.glob(os.path.join(ROOT, "refactors", "*.diff"))):
+        for f in sorted(glob.glob(os.path.join(ROOT, "refactors", "*.diff")) + glob.glob(os.path.join(ROOT, "refactors2", "*.diff"))):
             jobs.append(("ref", os.path.basename(f)[:-5], f, sel, False))
     bad = 0
     tally = {}
     with ProcessPoolExecutor(max_workers=a.j) as ex:
         for kind, name, st, why, fired, wall in ex.map(job, jobs):
             good = (st == "fired") if kind in ("mut", "seed") else (st == "silent")
+            crash = [p for p, (rs, _m) in fired.items() if any(r.endswith("-INTERNAL") for r in rs)]
+            if crash:
+                print("%-5s %-44s INTERNAL-ERROR in %s" % (kind, name[:44], crash))
+                if kind in ("mut", "seed") and all(all(r.endswith("-INTERNAL") for r in rs) for p, (rs, _m) in fired.items()):
+                    good = False
             if st == "skipped":
                 good = True
             tally.setdefault(kind, [0, 0])
